@@ -351,6 +351,37 @@ def rule_B3(run, prog):
                        sample={"class": c.name, "init": init.qualname if init else None})
 
 
+    # objects that come into being as copies: copy.copy() of a basis-managed object inherits the basis label of the
+    # original but is unknown to the manager.  Where the library makes such a copy and then uses it as an operator
+    # (assigns its managed data), it must register it, otherwise it is not transformed back when the context closes
+    ncopies = 0
+    for f in prog.all_functions():
+        if ".tests." in f.qualname or ".wizard." in f.qualname or not f.module.name.startswith("quantarhei.qm"):
+            continue
+        copies = {}
+        for n in walk_no_nested(f.node):
+            if isinstance(n, ast.Assign) and len(n.targets) == 1 and isinstance(n.targets[0], ast.Name) \
+                    and isinstance(n.value, ast.Call) and norm(n.value.func) in ("copy.copy", "copy.deepcopy"):
+                copies[n.targets[0].id] = n
+        for var, node in copies.items():
+            uses_data = any(isinstance(n, ast.Assign) and any(isinstance(t_, ast.Attribute) and t_.attr == "data"
+                            and isinstance(t_.value, ast.Name) and t_.value.id == var for t_ in n.targets)
+                            for n in walk_no_nested(f.node))
+            if not uses_data:
+                continue
+            ncopies += 1
+            prog.consulted.add(f.relpath)
+            reg = any(isinstance(n, ast.Call) and call_name(n) == "register_with_basis" and len(n.args) == 2
+                      and isinstance(n.args[1], ast.Name) and n.args[1].id == var for n in walk_no_nested(f.node))
+            run.obligation(rid, f.short, reg, key="copy-registered:" + var,
+                           message="%s makes %s = %s and gives it new managed data but does not register it with the "
+                                   "basis it is labelled with: created inside a context, the copy is not transformed "
+                                   "back on exit (reading it afterwards fails or uses an unrelated basis)"
+                                   % (f.short, var, norm(node.value)), loc=f.loc(node), sample={"function": f.short})
+    if ncopies < 3:
+        raise AnalysisError("C04-B3: only %d operator copies found in quantarhei.qm (3 confirmed: the apply methods)" % ncopies)
+
+
 # ----------------------------------------------------------------------
 def _oracle(extra):
     def oracle(it, test, env):
